@@ -80,6 +80,20 @@ def judge_module(res, tmod, m, traces, k, strategy, sname, via_cli=None, rewrite
             else:
                 orig_bad(key, txt)
     by_func = {}
+    if via_cli:
+        # the store returns each distinct row once: two calls with equal types are ONE trace to the stub command (this matters where
+        # merging treats "all traces equal" differently from "several traces", e.g. a yield union holding a TypedDict)
+        seen_rows, distinct = set(), []
+        for t in traces:
+            from monkeytype.encoding import CallTraceRow
+
+            r_ = CallTraceRow.from_trace(t)  # distinctness of rows is textual (union member order included), so use the row text itself
+            rowkey = (r_.module, r_.qualname, r_.arg_types, r_.return_type, r_.yield_type)
+            if rowkey not in seen_rows:
+                seen_rows.add(rowkey)
+                distinct.append(t)
+        res.count("cli_duplicate_traces_collapsed", len(traces) - len(distinct))
+        traces = distinct
     for t in traces:
         by_func.setdefault(inspect.unwrap(t.func), []).append(t)  # a functools.wraps wrapper is traced under the wrapped function's name
     specs = {f.qual: f for f in m.funcs}
